@@ -183,6 +183,11 @@ def stress(ctx, n):
     ctx.count("racefeedback:" + out[0].split(" ")[0])
     if not out[0].startswith("ok"):
         ctx.violation("a feedback racing a finish of the same seed: " + out[0], {"domain": "reactor", "racefinish": True, "impl": out[0]})
+    rc, out, err = core.run_impl("reactor", [json.dumps({"op": "racefreeze", "rounds": 2000 if ctx.thorough() else 300})], timeout=1200)
+    ctx.case("racefreeze", True)
+    ctx.count("racefreeze:" + (out[0].split(" ")[0] if out else "none"))
+    if not out or not out[0].startswith("ok"):
+        ctx.violation("a freeze racing inserts that wait for a token: " + (out[0] if out else err[-300:]), {"domain": "reactor", "racefreeze": True, "impl": out[0] if out else ""})
     lines = []
     for i in range(n):
         lines.append(json.dumps({"op": "stress", "tokens": ctx.rng.choice([1, 2, 5, 16]), "producers": ctx.rng.choice([1, 3, 8]),
